@@ -1430,3 +1430,290 @@ Proof. vm_compute. reflexivity. Qed.
 
 Example v1_ex_ops_ok : Forall (op_ok two32) ex_ops /\ B1 + ops_bytes ex_ops < two40.
 Proof. split; [apply op_okb_sound; vm_compute; reflexivity|vm_compute; reflexivity]. Qed.
+
+(* ================================================================================================ *)
+(* Part 5: caches (several bundles)                                                                  *)
+
+Lemma bkey_eqb_eq a b : bkey_eqb a b = true <-> a = b.
+Proof.
+  unfold bkey_eqb, Z3_eqb. destruct a as [[a1 a2] a3], b as [[b1 b2] b3]. split.
+  - intros H. apply andb_prop in H. destruct H as [H H3]. apply andb_prop in H. destruct H as [H1 H2].
+    apply Z.eqb_eq in H1, H2, H3. now subst.
+  - intros H. inversion H; subst. now rewrite !Z.eqb_refl.
+Qed.
+Lemma bkey_eqb_neq a b : bkey_eqb a b = false <-> a <> b.
+Proof.
+  split.
+  - intros H E. apply bkey_eqb_eq in E. congruence.
+  - intros H. destruct (bkey_eqb a b) eqn:E; [apply bkey_eqb_eq in E; contradiction|reflexivity].
+Qed.
+
+Lemma slot_of_ok x y : slot_ok (slot_of x y).
+Proof.
+  unfold slot_ok, slot_of, v2_rel_tile_coord, BUNDLE_V2_GRID_WIDTH, BUNDLE_V2_GRID_HEIGHT. cbn [fst snd].
+  pose proof (Z.mod_pos_bound x 128). pose proof (Z.mod_pos_bound y 128). lia.
+Qed.
+
+Lemma ctiles_bytes_nonneg l : 0 <= ctiles_bytes l.
+Proof. induction l; [cbv; discriminate|]. cbn [ctiles_bytes fold_right]. fold (ctiles_bytes l). pose proof (zlen_nonneg (snd a)). lia. Qed.
+Lemma cops_bytes_nonneg l : 0 <= cops_bytes l.
+Proof.
+  induction l; [cbv; discriminate|]. cbn [cops_bytes fold_right]. fold (cops_bytes l).
+  destruct a; cbn [cop_bytes]; [pose proof (ctiles_bytes_nonneg tiles)|]; lia.
+Qed.
+
+Section CacheProofs.
+  Variable St : Type.
+  Variable load : St -> slot -> rres.
+  Variable store1 : St -> slot -> list Z -> option St.
+  Variable remove1 : St -> slot -> St.
+  Variable fresh : bkey -> St.
+  Variable defrag1 : bkey -> St -> option (option St).
+  Variable Inv : St -> Prop.
+  Variable dlen : St -> Z.
+  Variable base maxlen : Z.
+
+  Hypothesis HS : forall st s d, Inv st -> slot_ok s -> bytes_okl d -> zlen d < maxlen -> dlen st + 4 + zlen d < two40 ->
+    exists st', store1 st s d = Some st' /\ Inv st' /\ dlen st' = dlen st + 4 + zlen d /\
+      load st' s = (if zlen d =? 0 then RMissing else RData d) /\
+      forall s', slot_ok s' -> s' <> s -> load st' s' = load st s'.
+  Hypothesis HR : forall st s, Inv st -> slot_ok s ->
+    Inv (remove1 st s) /\ dlen (remove1 st s) = dlen st /\ load (remove1 st s) s = RMissing /\
+    forall s', slot_ok s' -> s' <> s -> load (remove1 st s) s' = load st s'.
+  Hypothesis HF : forall k, Inv (fresh k) /\ dlen (fresh k) = base.
+  Hypothesis HD : forall k st, Inv st -> dlen st < two40 ->
+    exists r, defrag1 k st = Some r /\ (forall s, slot_ok s -> g_load_opt St load r s = load st s) /\
+      (forall st', r = Some st' -> Inv st' /\ dlen st' <= dlen st).
+
+  Local Notation cache_ok := (@cache_ok St Inv dlen).
+
+  Lemma c_find_in (c : list (bkey * St)) k st : c_find c k = Some st -> In (k, st) c.
+  Proof.
+    induction c as [|[k' st'] c IH]; cbn [c_find]; [discriminate|].
+    destruct (bkey_eqb k k') eqn:E.
+    - intros H. inversion H; subst. apply bkey_eqb_eq in E. subst. now left.
+    - intros H. right. auto.
+  Qed.
+  Lemma c_find_none (c : list (bkey * St)) k : ~ In k (map fst c) -> c_find c k = None.
+  Proof.
+    induction c as [|[k' st'] c IH]; cbn [c_find map fst]; [reflexivity|]. intros H.
+    destruct (bkey_eqb k k') eqn:E; [apply bkey_eqb_eq in E; subst; exfalso; apply H; now left|].
+    apply IH. intros Hi. apply H. now right.
+  Qed.
+  Lemma c_find_set_same (c : list (bkey * St)) k st : c_find (c_set c k st) k = Some st.
+  Proof.
+    induction c as [|[k' st'] c IH]; cbn [c_set c_find].
+    - assert (E : bkey_eqb k k = true) by now apply bkey_eqb_eq. now rewrite E.
+    - destruct (bkey_eqb k k') eqn:E; cbn [c_find].
+      + assert (E' : bkey_eqb k k = true) by now apply bkey_eqb_eq. now rewrite E'.
+      + now rewrite E.
+  Qed.
+  Lemma c_find_set_other (c : list (bkey * St)) k st k' : k' <> k -> c_find (c_set c k st) k' = c_find c k'.
+  Proof.
+    intros Hne. induction c as [|[k0 st0] c IH]; cbn [c_set c_find].
+    - assert (E : bkey_eqb k' k = false) by now apply bkey_eqb_neq. now rewrite E.
+    - destruct (bkey_eqb k k0) eqn:E; cbn [c_find].
+      + apply bkey_eqb_eq in E. subst k0. assert (E' : bkey_eqb k' k = false) by now apply bkey_eqb_neq. now rewrite E'.
+      + destruct (bkey_eqb k' k0); [reflexivity|exact IH].
+  Qed.
+  Lemma c_set_in (c : list (bkey * St)) k st k' st' : In (k', st') (c_set c k st) -> (k' = k /\ st' = st) \/ In (k', st') c.
+  Proof.
+    induction c as [|[k0 st0] c IH]; cbn [c_set].
+    - intros [H|[]]. inversion H. auto.
+    - destruct (bkey_eqb k k0) eqn:E.
+      + intros [H|H]; [inversion H; auto|right; now right].
+      + intros [H|H]; [right; now left|]. destruct (IH H) as [?|?]; [auto|right; now right].
+  Qed.
+  Lemma c_set_keys (c : list (bkey * St)) k st k' : In k' (map fst (c_set c k st)) -> k' = k \/ In k' (map fst c).
+  Proof.
+    intros H. apply in_map_iff in H. destruct H as [[k1 st1] [E H]]. cbn in E. subst k1.
+    destruct (c_set_in _ _ _ _ _ H) as [[? _]|?]; [auto|right]. apply in_map_iff. exists (k', st1). auto.
+  Qed.
+  Lemma c_set_nodup (c : list (bkey * St)) k st : NoDup (map fst c) -> NoDup (map fst (c_set c k st)).
+  Proof.
+    induction c as [|[k0 st0] c IH]; cbn [c_set map fst]; intros H.
+    - constructor; [intros []|constructor].
+    - inversion H as [|? ? Hn Hd]; subst. destruct (bkey_eqb k k0) eqn:E; cbn [map fst].
+      + apply bkey_eqb_eq in E. subst. now constructor.
+      + constructor; [|now apply IH]. intros Hi. destruct (c_set_keys _ _ _ _ Hi) as [->|?]; [|contradiction].
+        apply bkey_eqb_neq in E. congruence.
+  Qed.
+
+  Lemma c_get_ok b (c : list (bkey * St)) k : base <= b -> cache_ok b c -> Inv (c_get St fresh c k) /\ dlen (c_get St fresh c k) <= b.
+  Proof.
+    intros Hb [_ H]. unfold c_get. destruct (c_find c k) as [st|] eqn:E.
+    - apply (H k). now apply c_find_in.
+    - destruct (HF k) as [? ->]. auto.
+  Qed.
+
+  Lemma cache_ok_set b (c : list (bkey * St)) k st : cache_ok b c -> Inv st -> dlen st <= b -> cache_ok b (c_set c k st).
+  Proof.
+    intros [Hn H] HI Hl. split; [now apply c_set_nodup|]. intros k' st' Hin.
+    destruct (c_set_in _ _ _ _ _ Hin) as [[-> ->]|?]; [auto|now apply (H k')].
+  Qed.
+  Lemma cache_ok_mono b b' (c : list (bkey * St)) : b <= b' -> cache_ok b c -> cache_ok b' c.
+  Proof. intros Hb [Hn H]. split; [exact Hn|]. intros k st Hin. destruct (H k st Hin). split; [auto|lia]. Qed.
+
+  Lemma c_store_tiles_ok : forall tiles c b,
+    base <= b -> cache_ok b c -> Forall (ctile_ok maxlen) tiles -> b + ctiles_bytes tiles < two40 ->
+    exists c', c_store_tiles St store1 fresh c tiles = Some c' /\ cache_ok (b + ctiles_bytes tiles) c'.
+  Proof.
+    induction tiles as [|[[[x y] z] d] tiles IH]; intros c b Hb Hc Hf Hg.
+    - exists c. split; [reflexivity|]. cbn [ctiles_bytes fold_right]. now rewrite Z.add_0_r.
+    - inversion Hf as [|? ? [Hd Hm] Hf']; subst. cbn [snd] in Hd, Hm.
+      cbn [ctiles_bytes fold_right snd] in Hg |- *. fold (ctiles_bytes tiles) in Hg |- *.
+      pose proof (ctiles_bytes_nonneg tiles). pose proof (zlen_nonneg d).
+      destruct (c_get_ok b c (key_of x y z) Hb Hc) as [HI Hl].
+      destruct (HS _ (slot_of x y) d HI (slot_of_ok x y) Hd Hm) as [st' [E [HI' [Hl' _]]]]; [lia|].
+      cbn [c_store_tiles]. rewrite E.
+      destruct (IH (c_set c (key_of x y z) st') (b + 4 + zlen d)) as [c' [E' Hc']]; [lia| |exact Hf'|lia|].
+      + apply cache_ok_set; [eapply cache_ok_mono; [|exact Hc]; lia|exact HI'|lia].
+      + exists c'. split; [exact E'|]. eapply cache_ok_mono; [|exact Hc']. lia.
+  Qed.
+
+  (* every history of store_tiles / remove_tile calls on a cache (any coordinates, any number of bundles) runs
+     without error and leaves only valid bundles *)
+  Theorem c_history_ok : forall ops c b,
+    base <= b -> cache_ok b c -> Forall (cop_ok maxlen) ops -> b + cops_bytes ops < two40 ->
+    exists c', fold_left (c_step St store1 remove1 fresh) ops (Some c) = Some c' /\ cache_ok (b + cops_bytes ops) c'.
+  Proof.
+    induction ops as [|op ops IH]; intros c b Hb Hc Hf Hg.
+    - exists c. split; [reflexivity|]. cbn [cops_bytes fold_right]. now rewrite Z.add_0_r.
+    - inversion Hf as [|? ? Hop Hf']; subst. cbn [cops_bytes fold_right] in Hg |- *. fold (cops_bytes ops) in Hg |- *.
+      pose proof (cops_bytes_nonneg ops). cbn [fold_left c_step]. destruct op as [tiles|[[x y] z]]; cbn [cop_bytes cop_ok] in *.
+      + pose proof (ctiles_bytes_nonneg tiles).
+        destruct (c_store_tiles_ok tiles c b Hb Hc Hop) as [c1 [E Hc1]]; [lia|]. rewrite E.
+        destruct (IH c1 (b + ctiles_bytes tiles)) as [c' [E' Hc']]; [lia|exact Hc1|exact Hf'|lia|].
+        exists c'. split; [exact E'|]. eapply cache_ok_mono; [|exact Hc']. lia.
+      + destruct (c_get_ok b c (key_of x y z) Hb Hc) as [HI Hl].
+        destruct (HR _ (slot_of x y) HI (slot_of_ok x y)) as [HI' [Hl' _]].
+        destruct (IH (c_remove St remove1 fresh c (x, y, z)) b) as [c' [E' Hc']]; [lia| |exact Hf'|lia|].
+        * unfold c_remove. apply cache_ok_set; [exact Hc|exact HI'|lia].
+        * exists c'. split; [exact E'|]. eapply cache_ok_mono; [|exact Hc']. lia.
+  Qed.
+
+  Theorem c_run_ok ops : Forall (cop_ok maxlen) ops -> base + cops_bytes ops < two40 ->
+    exists c, c_run St store1 remove1 fresh ops = Some c /\ cache_ok (base + cops_bytes ops) c.
+  Proof.
+    intros Hf Hg. apply c_history_ok; [lia| |exact Hf|exact Hg]. split; [constructor|intros k st []].
+  Qed.
+
+  (* defragmentation of a cache with ANY skip decision per bundle: no error, every address returns what it
+     returned before, every remaining bundle is valid and not longer than before *)
+  Theorem c_defrag_ok skip : forall c b, b < two40 -> cache_ok b c ->
+    exists c', c_defrag St defrag1 skip c = Some c' /\
+      (forall coord, c_load St load c' coord = c_load St load c coord) /\
+      cache_ok b c' /\
+      (forall k st', In (k, st') c' -> exists st, In (k, st) c /\ dlen st' <= dlen st).
+  Proof.
+    intros c b Hb.
+    assert (G : cache_ok b c -> exists c', c_defrag St defrag1 skip c = Some c' /\
+      (forall k s, slot_ok s -> g_load_opt St load (c_find c' k) s = g_load_opt St load (c_find c k) s) /\
+      cache_ok b c' /\ (forall k, In k (map fst c') -> In k (map fst c)) /\
+      (forall k st', In (k, st') c' -> exists st, In (k, st) c /\ dlen st' <= dlen st)).
+    { induction c as [|[k st] c IH]; intros [Hn H].
+      - exists []. cbn [c_defrag]. splits; auto; [split; [constructor|intros ? ? []]|intros ? ? []].
+      - cbn [map fst] in Hn. inversion Hn as [|? ? Hnin Hnd]; subst.
+        destruct IH as [r' [E [Hl [[Hn' H'] [Hk Hsz]]]]]; [split; [exact Hnd|intros; apply (H k0); now right]|].
+        destruct (H k st (or_introl eq_refl)) as [HI Hlen].
+        cbn [c_defrag]. rewrite E. destruct (skip k st).
+        + exists ((k, st) :: r'). splits; auto.
+          * intros k0 s Hs. cbn [c_find]. destruct (bkey_eqb k0 k); [reflexivity|now apply Hl].
+          * split; [cbn [map fst]; constructor; [intros Hi; apply Hnin; now apply Hk|exact Hn']|].
+            intros k0 st0 [Heq|Hin]; [inversion Heq; subst; auto|now apply (H' k0)].
+          * cbn [map fst]. intros k0 [<-|Hi]; [now left|right; now apply Hk].
+          * intros k0 st0 [Heq|Hin]; [inversion Heq; subst; exists st0; split; [now left|lia]|].
+            destruct (Hsz _ _ Hin) as [st1 [? ?]]. exists st1. split; [now right|assumption].
+        + destruct (HD k st HI) as [o [Ed [Hlo Ho]]]; [lia|]. rewrite Ed. destruct o as [st'|].
+          * destruct (Ho st' eq_refl) as [HI' Hl'].
+            exists ((k, st') :: r'). splits; auto.
+            -- intros k0 s Hs. cbn [c_find]. destruct (bkey_eqb k0 k); [cbn [g_load_opt]; now apply (Hlo s)|now apply Hl].
+            -- split; [cbn [map fst]; constructor; [intros Hi; apply Hnin; now apply Hk|exact Hn']|].
+               intros k0 st0 [Heq|Hin]; [inversion Heq; subst; split; [auto|lia]|now apply (H' k0)].
+            -- cbn [map fst]. intros k0 [<-|Hi]; [now left|right; now apply Hk].
+            -- intros k0 st0 [Heq|Hin]; [inversion Heq; subst; exists st; split; [now left|lia]|].
+               destruct (Hsz _ _ Hin) as [st1 [? ?]]. exists st1. split; [now right|assumption].
+          * exists r'. splits; auto.
+            -- intros k0 s Hs. cbn [c_find]. destruct (bkey_eqb k0 k) eqn:Ek; [|now apply Hl].
+               apply bkey_eqb_eq in Ek. subst k0. rewrite c_find_none by (intros Hi; apply Hnin; now apply Hk).
+               cbn [g_load_opt]. exact (Hlo s Hs).
+            -- split; [exact Hn'|exact H'].
+            -- intros k0 Hi. right. now apply Hk.
+            -- intros k0 st0 Hin. destruct (Hsz _ _ Hin) as [st1 [? ?]]. exists st1. split; [now right|assumption]. }
+    intros Hc. destruct (G Hc) as [c' [E [Hl [Hc' [_ Hsz]]]]]. exists c'. splits; auto.
+    intros [[x y] z]. unfold c_load. specialize (Hl (key_of x y z) (slot_of x y) (slot_of_ok x y)).
+    destruct (c_find c' (key_of x y z)), (c_find c (key_of x y z)); cbn [g_load_opt] in Hl; auto.
+  Qed.
+End CacheProofs.
+
+(* --- the cache theorems for v2 and v1 *)
+Lemma v2_defrag_weak (k : bkey) f : v2_Inv f -> blen f < two40 ->
+  exists r, v2_defrag f = Some r /\ (forall s, slot_ok s -> g_load_opt bfile v2_load r s = v2_load f s) /\
+    (forall f', r = Some f' -> v2_Inv f' /\ blen f' <= blen f).
+Proof.
+  intros HI Hg. destruct (v2_defrag_correct f HI Hg) as [r [E [Hl [Hs _]]]]. exists r. splits; auto.
+  intros f' Hr. destruct (Hs f' Hr) as [? [_ ?]]. auto.
+Qed.
+Lemma v1_defrag_weak (k : bkey) st : v1_Inv st -> v1_dlen st < two40 ->
+  exists o, (let '(_, c, r) := k in v1_defrag c r) st = Some o /\
+    (forall s, slot_ok s -> g_load_opt v1st v1_load o s = v1_load st s) /\
+    (forall st', o = Some st' -> v1_Inv st' /\ v1_dlen st' <= v1_dlen st).
+Proof.
+  intros HI Hg. destruct k as [[z c] r]. destruct (v1_defrag_correct c r st HI Hg) as [o [E [Hl [Hs _]]]]. exists o. splits; auto.
+  intros st' Hr. destruct (Hs st' Hr) as [? [_ [? _]]]. auto.
+Qed.
+Lemma v1_fresh_ok k : v1_Inv (v1_fresh k) /\ v1_dlen (v1_fresh k) = B1.
+Proof. destruct k as [[z c] r]. split; [apply v1_inv_init|reflexivity]. Qed.
+
+Ltac inst_c2 lem X :=
+  pose proof (lem bfile v2_load v2_store1 v2_remove1 (fun _ : bkey => v2_init) (fun _ : bkey => v2_defrag) v2_Inv blen B2 two24) as X;
+  repeat first [specialize (X v2_inv_store) | specialize (X v2_inv_remove)
+               | specialize (X (fun _ : bkey => conj v2_inv_init (eq_refl B2))) | specialize (X v2_defrag_weak)].
+Ltac inst_c1 lem X :=
+  pose proof (lem v1st v1_load v1_store1 v1_remove1 v1_fresh (fun k : bkey => let '(_, c, r) := k in v1_defrag c r)
+                  v1_Inv v1_dlen B1 two32) as X;
+  repeat first [specialize (X v1_inv_store) | specialize (X v1_inv_remove) | specialize (X v1_fresh_ok)
+               | specialize (X v1_defrag_weak)].
+
+Theorem v2c_history_ok ops : Forall (cop_ok two24) ops -> B2 + cops_bytes ops < two40 ->
+  exists c, v2c_run ops = Some c /\ cache_ok v2_Inv blen (B2 + cops_bytes ops) c.
+Proof. inst_c2 c_run_ok X. exact (X ops). Qed.
+
+Theorem v2c_defrag_ok skip c b : b < two40 -> cache_ok v2_Inv blen b c ->
+  exists c', v2c_defrag skip c = Some c' /\
+    (forall coord, v2c_load c' coord = v2c_load c coord) /\
+    cache_ok v2_Inv blen b c' /\
+    (forall k f', In (k, f') c' -> exists f, In (k, f) c /\ blen f' <= blen f).
+Proof. inst_c2 c_defrag_ok X. exact (X skip c b). Qed.
+
+Theorem v1c_history_ok ops : Forall (cop_ok two32) ops -> B1 + cops_bytes ops < two40 ->
+  exists c, v1c_run ops = Some c /\ cache_ok v1_Inv v1_dlen (B1 + cops_bytes ops) c.
+Proof. inst_c1 c_run_ok X. exact (X ops). Qed.
+
+Theorem v1c_defrag_ok skip c b : b < two40 -> cache_ok v1_Inv v1_dlen b c ->
+  exists c', v1c_defrag skip c = Some c' /\
+    (forall coord, v1c_load c' coord = v1c_load c coord) /\
+    cache_ok v1_Inv v1_dlen b c' /\
+    (forall k st', In (k, st') c' -> exists st, In (k, st) c /\ v1_dlen st' <= v1_dlen st).
+Proof. inst_c1 c_defrag_ok X. exact (X skip c b). Qed.
+
+(* non-vacuity: a history over three bundles on two levels *)
+Definition ex_cops : list cop :=
+  [CStore [((127, 127, 1), [1; 2; 3]); ((128, 127, 1), [4; 5])]; CStore [((127, 128, 2), [6])];
+   CStore [((127, 127, 1), [9; 9])]; CRemove (128, 127, 1)].
+Example ex_cops_ok : Forall (cop_ok two24) ex_cops /\ B2 + cops_bytes ex_cops < two40.
+Proof.
+  split; [|vm_compute; reflexivity]. unfold ex_cops, cop_ok, ctile_ok. repeat (apply Forall_cons || apply Forall_nil || exact I);
+  cbn [snd]; (split; [apply Forall_forall; intros b Hb; cbn [In] in Hb; intuition lia|vm_compute; reflexivity]).
+Qed.
+Example v2c_ex_run :
+  match v2c_run ex_cops with
+  | Some c => Nat.eqb (length c) 3 && rres_eqb (v2c_load c (127, 127, 1)) (RData [9; 9])
+              && rres_eqb (v2c_load c (128, 127, 1)) RMissing && rres_eqb (v2c_load c (127, 128, 2)) (RData [6])
+              && match v2c_defrag (fun _ _ => false) c with
+                 | Some c' => Nat.eqb (length c') 2 && rres_eqb (v2c_load c' (127, 127, 1)) (RData [9; 9])
+                 | None => false
+                 end
+  | None => false
+  end = true.
+Proof. vm_compute. reflexivity. Qed.
